@@ -672,6 +672,13 @@ func ruleRegistryBracket(c *Ctx, rid string) {
 			}
 		})
 		c.check(addKey != "" && addKey == remKey, rid, "registry-key", c.P.pos(rem.Pos()), "AddConn and RemoveConn key: "+addKey, fmt.Sprintf("AddConn inserts under %q but RemoveConn deletes %q", addKey, remKey))
+		// the entry goes on every path: no return of RemoveConn is reached without the delete
+		// (the connection loop ignores RemoveConn's result, so an early error return leaks the entry)
+		uncond := mustPassCall(rem, func(cc *ssa.CallCommon) bool {
+			b, ok := cc.Value.(*ssa.Builtin)
+			return ok && b.Name() == "delete"
+		})
+		c.check(uncond, rid, "RemoveConn/unconditional", c.P.pos(rem.Pos()), "every path through RemoveConn deletes the entry", "RemoveConn can return without deleting the entry (an early return before the delete): the deferred RemoveConn of the connection loop ignores the result, so the registry keeps a connection that is gone")
 	}
 }
 
@@ -795,6 +802,8 @@ func runC07(c *Ctx) {
 	ruleAcceptLoops(c, "R07.c")
 	ruleReplyBufferLocal(c, "R07.d")
 	ruleNilNilDeref(c, "R07.e")
+	ruleNoReentrantLock(c, buildSyncModel(c), "R07.f")
+	ruleNoWriteUnderReadLock(c, "R07.g")
 	c.assume("handlers do not call os.Exit themselves; stack exhaustion and out-of-memory are not recoverable and not decided")
 }
 
@@ -805,6 +814,9 @@ func runC19(c *Ctx) {
 	ruleLoopExitIsFunctionExit(c, "R19.d")
 	ruleStopSweep(c, "R19.e")
 	ruleNoLockAcrossBlocking(c, buildSyncModel(c), "R19.f")
+	ruleAcceptLoopEndsWithListener(c, "R19.g")
+	// a loop that can spin keeps its goroutine, socket and registry entry for ever
+	ruleLoopProgress(c, "R19.h")
 	c.assume("a peer that stops reading keeps the goroutine blocked in Write until it goes away (no write deadline exists); not a leak once the peer is gone")
 }
 
